@@ -1,11 +1,11 @@
 #!/bin/bash
-# seed_matrix.sh : re-verifies every seed against /repo HEAD (verify_seed.sh) and runs the quick check of its property
-# against it (try_seed.sh); writes /verif/seeded/RESULTS.md
+# seed_matrix.sh [jobs] : re-verifies every seed against /repo HEAD (verify_seed.sh) and runs the quick check of its
+# property against it (try_seed.sh); writes /verif/seeded/RESULTS.md
 cd /verif
-out=seeded/RESULTS.md
-echo "| seed | property | still a valid seed at HEAD | check exit | caught | first report |" > $out
-echo "|---|---|---|---|---|---|" >> $out
-for d in seeded/C*/; do
+J=${1:-4}
+tmp=$(mktemp -d /tmp/seedmx-XXXXXX)
+one() {
+  d=$1; tmp=$2
   s=$(basename $d)
   p=$(python3 -c "import json;print(json.load(open('$d/meta.json'))['property'])")
   v=$(tools/verify_seed.sh $d 2>/dev/null | tail -1)
@@ -13,6 +13,13 @@ for d in seeded/C*/; do
   rc=$(echo "$r" | sed -E 's/.*exit=([0-9]+).*/\1/')
   first=$(echo "$r" | sed -E 's/.*:: //' | cut -c1-160 | tr '|' '/')
   caught=no; [ "$rc" = "1" ] && caught=yes; [ "$rc" = "2" ] && caught="inconclusive (exit 2)"
-  echo "| $s | $p | $v | $rc | $caught | $first |" >> $out
+  echo "| $s | $p | $v | $rc | $caught | $first |" > $tmp/$s.row
   echo "$s $p $v exit=$rc"
-done
+}
+export -f one
+ls -d seeded/C*/ | xargs -P $J -I{} bash -c 'one {} '$tmp
+out=seeded/RESULTS.md
+echo "| seed | property | still a valid seed at HEAD | check exit | caught | first report |" > $out
+echo "|---|---|---|---|---|---|" >> $out
+for f in $(ls $tmp/*.row | sort -V); do cat $f >> $out; done
+rm -rf $tmp
